@@ -281,11 +281,6 @@ CHECKS["C13"] = dict(
 # Work in progress: registered so that `VERIF_WIP=1 ./check <ID> <tier>` can run them, but NOT claimed
 # (gen_manifest.py lists them under not_applicable with the reason below and writes no check entry).
 WIP = {}
-for _k in ("C13",):
-    WIP[_k] = CHECKS.pop(_k)
-PENDING["C13"] = ("not claimed: the storage state-machine check (harness/checks/storagechk, shared with C12) is quiet in its quick tier and finds a seeded change, "
-                  "but its thorough tier reports allocated-differs after update_allocation_request and offers-differ-after-kill on the unchanged tree; "
-                  "at least three different causes are involved and they have not been triaged into genuine defect vs. oracle mistake, so nothing the check says is relied upon (DESIGN.md 10.4)")
 
 # ---------------------------------------------------------------------------
 # Per-property registry files: driver/registry/<ID>.py is executed with CHECKS, WIP and PENDING in
